@@ -149,3 +149,7 @@ func Quiesce()
 // OmitAVP: the AVP of the given member ("ServiceRating.ConsumedUnits") is
 // absent from the Diameter message built by Marshal.
 func OmitAVP(msg interface{}, member string)
+
+// HTTPSetBody sets the JSON body of the request behind c to the document that
+// encodes *obj (c.GetRawData / openapi.Deserialize hand it to the handler).
+func HTTPSetBody(c interface{}, obj interface{})
